@@ -507,6 +507,73 @@ def errchk_before_block(ctx):
 
 
 
+@rule('ERRCHK-BEFORE-HANDOUT', ['C09', 'C08'], floor=2)
+def errchk_before_handout(ctx):
+    """A reader coordinator hands out the units in sequence. A failing worker stores its error and then wakes the
+    coordinator with an empty placeholder for its unit, which the coordinator consumes like a result; later units may
+    already sit in the reorder buffer. So that nothing behind a failed unit reaches the caller, every hand-out from
+    the reorder buffer (`out_of_order_chunks.remove(..)` followed by Ok) must come after the error store has been
+    looked at in the same round (the lock+take dominates the removal inside the loop) and must not happen in the
+    error state (the removal is control dependent on a test of `self.state`, or the state test returns first).
+    Otherwise read() returns Ok(unit k+1) although unit k failed: successful reads with a hole in the data."""
+    F = ctx.facts
+    cs = [(f, r) for f, r in coordinator_fns(F) if 'reader' in f.file]
+    if not cs:
+        return ctx.anchor_missing('reader coordinator functions')
+    ev_cache = {}
+    for f, recvs in cs:
+        prov = Prov(f)
+        key = '%s:error-store-before-reorder-buffer' % f.key
+        removes = [bi for bi, t, c in f.calls() if c.name == 'remove' and 'BTreeMap' in c.path]
+        if not removes:
+            ctx.violation(key, f.loc(0), 'cannot find the reorder buffer lookup (BTreeMap::remove): anchor lost (fail closed)')
+            continue
+        errlocks = []
+        for bi, t, c in f.calls():
+            if c.is_(*LOCK_FNS):
+                a = prov.operand(t['args'][0])
+                if any(x[0] == 'field' and 'err' in x[2] for x in expr_walk(a)):
+                    errlocks.append(bi)
+        loops = f.loops()
+        bad = None
+        for rb in removes:
+            inner = [(h, body) for h, body in loops.items() if rb in body]
+            if not inner:
+                bad = (rb, 'the reorder buffer is consulted outside the coordinator loop')
+                break
+            h, body = min(inner, key=lambda x: len(x[1]))
+            if not any(e in body and f.dominates(e, rb) for e in errlocks):
+                bad = (rb, 'the reorder buffer is consulted before the shared error store in the coordinator loop: after a failed unit (whose '
+                           'placeholder was consumed like a result) later units that already arrived are handed out before the error is reported')
+                break
+            ev, sty = _error_variant(F, f)
+            state_tested = False
+            for sb, pol, cond in guards_of(f, rb, prov):
+                pass
+            # a switch on discr(self.state) that dominates the removal and whose Error edge does not reach it
+            for sb in f.reachable:
+                t = f.blocks[sb]['term']
+                if t['k'] != 'switch' or not f.dominates(sb, rb) or sb not in body:
+                    continue
+                dl = op_local(t['discr'])
+                dd = f.whole_defs(dl) if dl is not None else []
+                if len(dd) == 1 and dd[0][2] == 'assign' and dd[0][3]['rv']['r'] == 'discr':
+                    pl = dd[0][3]['rv']['p']
+                    if pl['l'] == 1 and 'State' in pl['ty'] and ev is not None:
+                        arms = {int(a[0]): a[1] for a in t['arms']}
+                        etgt = _follow_known_bools(f, arms.get(ev, t['otherwise']))
+                        if rb not in f.reach_from([etgt], stop={h}):
+                            state_tested = True
+            if not state_tested:
+                bad = (rb, 'units are taken from the reorder buffer also in the error state: after the error has been reported once, the next read() '
+                           'hands out the units behind the failed one')
+                break
+        if bad:
+            ctx.violation(key, f.loc(bad[0]), bad[1])
+        else:
+            ctx.ok(key, f.loc(removes[0]), 'the error store is read before the reorder buffer in every round, and not in the error state')
+
+
 @rule('CV-NOTIFY', ['C10'], floor=2)
 def cv_notify(ctx):
     """Every change of a condvar predicate is announced: after a store to a predicate atomic (e.g.
